@@ -199,6 +199,55 @@ def constants():
     return out
 
 
+RCLS = {'U1_LeverArmType': 'lever', 'U1_GnssId': 'gnssid', 'X4_Flags': 'flagsen', 'X2_Proto': 'proto', 'X4_Mode': 'mode',
+        'U1_Flags': 'algflags', 'X1_InitStatus1': 'init1', 'X1_InitStatus2': 'init2', 'U1_FusionMode': 'fusion',
+        'X1_SensStatus1': 'sens1', 'X1_SensStatus2': 'sens2', 'U1_GpsFix': 'gpsfix', 'X1_Flags': 'navflags'}
+
+
+def rcls_of(item):
+    """Renderer class token of a field object (fail-closed on unknown custom __str__)."""
+    from ubxlib import types as T
+    cls = type(item)
+    if cls.__str__ is T.Item.__str__:
+        return 'hex' if hasattr(item, 'fmt_string') else 'plain'
+    if cls.__name__ in RCLS:
+        return RCLS[cls.__name__]
+    raise ReflectError(f'unknown renderer class {cls.__name__}')
+
+
+def render_tables():
+    """Lengths of the lookup tables used by the table-driven renderers: class-level list attributes of
+    Item subclasses and list literals assigned inside their __str__ (AST)."""
+    import ast
+    import inspect as ins
+    import textwrap
+    import ubxlib
+    from ubxlib import types as T
+    out = {}
+    for m in pkgutil.iter_modules(ubxlib.__path__):
+        if not m.name.startswith('ubx_'):
+            continue
+        mod = importlib.import_module('ubxlib.' + m.name)
+        for n, c in ins.getmembers(mod, ins.isclass):
+            if not (issubclass(c, T.Item) and c.__module__ == mod.__name__):
+                continue
+            for an, av in vars(c).items():
+                if isinstance(av, list) and all(isinstance(x, str) for x in av):
+                    if an in out and out[an] != len(av):
+                        raise ReflectError(f'table name {an} defined twice with different lengths')
+                    out[an] = len(av)
+            if '__str__' in vars(c):
+                tree = ast.parse(textwrap.dedent(ins.getsource(c.__str__)))
+                for node in ast.walk(tree):
+                    if isinstance(node, ast.Assign) and isinstance(node.value, ast.List) and len(node.targets) == 1 \
+                            and isinstance(node.targets[0], ast.Name) and all(isinstance(e, ast.Constant) for e in node.value.elts):
+                        an = node.targets[0].id
+                        if an in out and out[an] != len(node.value.elts):
+                            raise ReflectError(f'table name {an} defined twice with different lengths')
+                        out[an] = len(node.value.elts)
+    return out
+
+
 # ---------------------------------------------------------------------------- Coq emission
 def coq_str(s):
     return '"' + s.replace('"', '""') + '"%string'
@@ -251,6 +300,8 @@ def emit_tables_v(path):
     L.append('Definition g_size_from_bits : list (Z * N) := [' + '; '.join(f'({b}%Z, {s})' for b, s in sorted(kt['SIZE_FROM_BITS'].items())) + '].')
     L.append('Definition g_bits_from_size : list Z := [' + '; '.join(f'{b}%Z' for b in kt['BITS_FROM_SIZE']) + '].')
     L.append('Definition g_bytes_from_bits : list (Z * nat) := [' + '; '.join(f'({b}%Z, {s}%nat)' for b, s in sorted(kt['BYTES_FROM_BITS'].items())) + '].')
+    rt = render_tables()
+    L.append('Definition g_render_tables : list (string * nat) := [' + '; '.join(f'({coq_str(k)}, {v}%nat)' for k, v in sorted(rt.items())) + '].')
     L.append(f'Definition g_sync_1 : N := {cs["SYNC_1"]}.')
     L.append(f'Definition g_sync_2 : N := {cs["SYNC_2"]}.')
     L.append(f'Definition g_max_message_length : N := {cs["MAX_MESSAGE_LENGTH"]}.')
